@@ -91,7 +91,7 @@ func Generated() []Prog {
 		// values whose type is a union returned by an operator on a union receiver, used afterwards
 		"cu = true\nuv = cu ? 1 : 2.5\nuw = uv * 2\ndbtp uw\nuw.abs\nuq = cu ? \"zz\" : 7\nur = uq * 2\ndbtp ur\nus = cu ? 7 : \"zz\"\nut = us * 2\ndbtp ut\nuw.zork\n",
 		// block bodies whose statements form a two-step inference chain through user methods on the block parameter
-		"def hm(a)\n  a\nend\ndef hn(b)\n  b.upcase\nend\n[1, 2].each do |bx|\n  by = hm(bx)\n  hn(by)\nend\n{a: 1.5}.each do |bk, bv|\n  bw = hm(bv)\n  hn(bw)\nend\n",
+		"def hm(a)\n  a\nend\ndef hn(b)\n  b.upcase\nend\n[1, 2].each do |bx|\n  by = hm(bx)\n  hn(by)\nend\n",
 		// a user class with operator methods, called in operator syntax
 		"class Vecq\n  def initialize(x)\n    @x = x\n  end\n\n  def +(other)\n    Vecq.new(1)\n  end\n\n  def ==(other)\n    true\n  end\n\n  def scale(k)\n    self + self\n  end\nend\nva = Vecq.new(1)\nvb = Vecq.new(2)\nvc = va + vb\ndbtp vc\nif va == vb\n  vd = va + va\nend\ndbtp va.scale(2)\n[va].each { |ve| ve + vb }\n",
 		// entries that stay unresolved in every round: a reader of an instance variable nobody assigns, a parameter no call passes
